@@ -68,6 +68,44 @@ instance : RemEuclid Float where
 
 instance : NatCast Float := ⟨Float.ofNat⟩
 
+/-! ### `f32` (Lean's `Float32`: IEEE-754 binary32, the same operations as Rust's `f32`) -/
+
+instance : Cmp Float32 where
+  lt a b := a < b
+  le a b := a ≤ b
+  eq a b := a == b
+
+instance : ToUsize Float32 where
+  toUsize? x :=
+    if x > -1.0 && x < 18446744073709551616.0 then some x.toUInt64.toNat else none
+
+/-- a finite `Float32` as `(negative, M, E)` with value `± M · 2^E` -/
+def float32Decode (f : Float32) : Bool × Nat × Int :=
+  let b := f.toBits.toNat
+  let neg := b >>> 31 == 1
+  let e := (b >>> 23) % 256
+  let m := b % (2 ^ 23)
+  if e == 0 then (neg, m, -149) else (neg, m + 2 ^ 23, (e : Int) - 150)
+
+/-- C `fmodf` (Rust's `%` on `f32`), exactly, on the decoded operands -/
+def float32Fmod (a p : Float32) : Float32 :=
+  if a.isNaN || p.isNaN || a.isInf || p == 0.0 then 0.0 / 0.0
+  else if p.isInf then a
+  else
+    let (na, ma, ea) := float32Decode a
+    let (_, mp, ep) := float32Decode p
+    let e0 := if ea ≤ ep then ea else ep
+    let r := (ma * 2 ^ (ea - e0).toNat) % (mp * 2 ^ (ep - e0).toNat)
+    let v := (Float32.ofNat r).scaleB e0
+    if na then -v else v
+
+instance : RemEuclid Float32 where
+  remEuclid a p :=
+    let r := float32Fmod a p
+    if r < 0.0 then r + p.abs else r
+
+instance : NatCast Float32 := ⟨Float32.ofNat⟩
+
 instance : Cmp Int where
   lt a b := decide (a < b)
   le a b := decide (a ≤ b)
